@@ -11,6 +11,7 @@ package vsched
 import (
 	"fmt"
 	"runtime"
+	"time"
 	"runtime/debug"
 	"sort"
 	"strings"
@@ -147,6 +148,11 @@ type runtimeState struct {
 	keysSeen  int
 	resetters []func()
 }
+
+// RaceMode is set by the free-running race pass (E3): harness bodies run in REAL mode with real
+// goroutines and the real clock under the race detector; WaitIdle / Advance become short real
+// sleeps and oracle failures are ignored.
+var RaceMode bool
 
 var rt = &runtimeState{}
 var active realatomic.Bool
@@ -556,6 +562,9 @@ func trimStack(b []byte) string {
 // is pending. Used by harness main threads to settle the system.
 func WaitIdle() {
 	if !Active() {
+		if RaceMode {
+			time.Sleep(15 * time.Millisecond)
+		}
 		return
 	}
 	r := rt
@@ -608,6 +617,9 @@ func Logf(format string, a ...any) {
 
 // Failf records an oracle failure with a stable signature.
 func Failf(sig string, format string, a ...any) {
+	if !Active() && RaceMode {
+		return // free-running race pass: oracles are not evaluated (nothing is settled deterministically)
+	}
 	if !Active() {
 		panic("vsched.Failf outside an execution: " + sig + ": " + fmt.Sprintf(format, a...))
 	}
